@@ -23,4 +23,57 @@ PROPS = {
         trusted_base=COMMON_TRUST + ["derived Debug of KindSet prints the raw bits (used as the canonical observable)"],
         assumptions=["KindSet values are only built through the public API (the u8 field is private), hence range over the 64 subsets"],
     ),
+
+    "C01": dict(
+        tables=["parse"],
+        determined=True,
+        projection=lambda case, reply: reply.split(" ")[0] if reply.startswith("ok ") else ("E" if reply.startswith("E ") else reply),
+        technique="Lean 4 theorems about a model of the parser (stream-error/ill-formed-UTF-8 rejection, entry-point equalities, whole input consumed) + bounded-exhaustive differential execution of the verdict through every entry point against the model and an independent RFC 8259 recogniser",
+        level_text=("PARTIAL proof. Proved in Lean for all inputs: a character stream that ends in a decoding error is never accepted; byte input that is not well-formed UTF-8 "
+                    "(std from_utf8 table) is rejected and well-formed byte input gets exactly the verdict of the decoded text; acceptance consumes the whole text. "
+                    "The equivalence 'accepts iff RFC 8259 grammar' (C01_full) is stated but not yet proved in Lean; it is covered by differential execution: "
+                    "the verdict of the real parser is compared with the proved-terminating Lean model AND with an independent grammar-derived recogniser on every string of length <= 5 "
+                    "over a 14-character alphabet, every token sequence of length <= 4, a transition cover of the number/literal automata in 7 contexts, every single-byte edit and "
+                    "truncation of the JSONTestSuite corpus, all 2-byte sequences and structured 3/4-byte UTF-8 sequences, and grammar-directed documents with damage; all entry points must agree."),
+        level_note=("Trusted: Lean kernel; hand-written model of src/parse/*.rs validated by correspondence on ~1.6M inputs per run; the harness's reference recogniser; "
+                    "std core::str::from_utf8 modelled by utf8Dec (validated on all 2-byte and structured longer sequences)."),
+        rule=("request = one input text/byte string + option record; verdict projection (accept / reject). Streams: bounded-exhaustive character alphabet and token alphabet, "
+              "number-automaton transition cover, literal deviations, string-element sequences, \\uXXXX sweep, surrogate pairs, raw scalars, corpus edits/truncations, grammar-directed + damaged documents, "
+              "UTF-8 byte sequences, failing streams. Non-trivial = accepted input; distinct = distinct request lines"),
+        strength="partial: rejection of ill-formed streams, entry-point agreement (model level) proved; grammar equivalence tested exhaustively within bounds, not yet proved",
+        trusted_base=COMMON_TRUST + ["std core::str::from_utf8 = utf8Dec (modelled, validated by the byte streams)", "harness reference recogniser (harness/src/refjson.rs), written from RFC 8259"],
+        assumptions=["the character-iterator entry points are given iterators that deliver the text's characters (any iterator is modelled as a finite list plus a may-fail flag)"],
+    ),
+    "C03": dict(
+        tables=["parse"],
+        determined=True,
+        technique="Lean 4: termination proof of the explicit-stack machine, iteration bound 2n+2, no-panic invariant over code-map indices; runtime observation of deep nesting (depth up to 2e6) in a 256 KiB-stack child process",
+        level_text=("PARTIAL proof (by nature of the property). Proved in Lean for every input, every option record: the parsing machine (one arm per arm of the Rust loop, its only recursion a tail call, "
+                    "nesting kept in an explicit stack) terminates (well-founded measure accepted by the kernel), needs at most 2*|input|+2 loop iterations, consumes every character exactly once on success, "
+                    "and never reaches the only panic site of the parser (end_fragment's unwrap) — invariant: every code-map index held by the machine is below the code map's length. "
+                    "What a model cannot exhibit — real stack depth of the compiled code, aborts in dependencies — is observed: arrays/objects/mixed nestings of depth 10^3..2*10^5 (thorough 2*10^6), closed and unclosed, are parsed and "
+                    "traversed in a thread with a fixed 256 KiB stack inside a child process; random bytes, prefixes and single-byte edits of the corpus go through the byte entry point under all four option records with catch_unwind; "
+                    "a counting iterator checks that no more characters are pulled than exist."),
+        level_note="Trusted: Lean kernel; model validated by correspondence; runtime stack behaviour is tested, not proved. Traverse = pre-order is proved under C11 (when claimed).",
+        rule="deep documents (kind, depth, closed) ; counting-iterator documents and prefixes ; random byte strings ; corpus prefixes/edits ; failing streams. Non-trivial = accepted; distinct request lines",
+        strength="partial: totality, step bound, no-panic proved on the model; stack usage observed at run time",
+        trusted_base=COMMON_TRUST + ["the OS delivering a stack overflow as a signal to the child process"],
+        assumptions=["Drop/Clone/Print of Value are recursive by design and outside the property (values are leaked in the deep-nesting child)"],
+        timeout=3600,
+    ),
+    "C12": dict(
+        tables=["parse"],
+        determined=True,
+        technique="Lean 4 theorem by functional induction over the parsing machine: strict success implies identical success under every option record; differential execution under all four option records incl. every sequence of <= 3-4 string elements",
+        level_text=("PARTIAL proof. Proved in Lean for all inputs (well-formed or failing streams, all option records): the conservative-extension clause — whatever strict mode accepts is accepted by every "
+                    "option record with the identical value and code map (no option-dependent branch is taken on a successful strict run) — and the regenerated presets (strict = default = all false, flexible = all true). "
+                    "The exactness clauses (only unpaired high / lone low surrogate escapes are relaxed, one U+FFFD each, pairs still combine, independence of the two options; C12_exact) are stated but not yet proved in Lean; "
+                    "they are covered by differential execution of the full result under all four option records against the model and against an independent two-pass reference (split, then combine) "
+                    "exhaustively over every sequence of <= 3 (thorough 4) string elements from {high escapes, low escapes, ordinary escapes, raw BMP/non-BMP chars, truncated escape} in value and key position, all 65,536 \\uXXXX, plus the C01 streams."),
+        level_note="Trusted: Lean kernel; model validated by correspondence; the harness's two-pass reference for the lenient semantics.",
+        rule="request = text + option record, full result projection (value, code map, error). Non-trivial = accepted; distinct request lines",
+        strength="partial: conservative extension proved; exactness tested exhaustively within bounds",
+        trusted_base=COMMON_TRUST + ["harness reference (refjson.rs) for the lenient surrogate policy"],
+        assumptions=[],
+    ),
 }
